@@ -63,6 +63,19 @@ def classify(component, what, case):
     # F28: date-and-time sort callback compares instants only
     if ty == "t:ietf-yang-types:date-and-time" and law in ("sort_consistent_with_eq", "leaflist_order") and case.get("reply", [None] * 3)[2] == "0":
         return "F28"
+    # F421: instance-identifier with a variable reference as key value ends in LY_EINT
+    if law == "inst_no_internal_error" and b"$" in val:
+        return "F421"
+    # F422: instance-identifier values that differ only in the order of the key predicates are unequal (string compare of the written order)
+    if law == "inst_same_instance_equal" and case.get("reply", ["", ""])[:2] == ["ok", "0"] and case["reply"][3] == "0":
+        a, b = unhex(case["a_hex"]), unhex(case["b_hex"])
+        if a != b and len(a) == len(b) and sorted(re.findall(rb"\[[^\]]*\]", a)) == sorted(re.findall(rb"\[[^\]]*\]", b)) \
+                and re.sub(rb"\[[^\]]*\]", b"", a) == re.sub(rb"\[[^\]]*\]", b"", b):
+            return "F422"
+    # F423: hex-string family: strndup() truncates a (pointer, length) value at an embedded NUL, the rest is ignored
+    if law == "hex_nul_refused" and b"\x00" in val and case.get("got", ["err"])[0] == "ok" and ty.startswith("t:ietf-yang-types:") \
+            and unhex(case["got"][1]) == val.split(b"\x00")[0].lower():
+        return "F423"
     # F410: identityref accepts an identity derived from some but not all of the bases
     if law == "identityref_accept_iff" and case.get("rfc") is None and case.get("got", ["err"])[0] == "ok" and len(case.get("bases", [])) > 1 \
             and any(case.get("derived_from_base", [])) and not all(case.get("derived_from_base", [])):
